@@ -90,7 +90,7 @@ class Parser:
     def ident(self):
         k, v = self.t[self.i]
         if k != "id":
-            raise Unsupported(f"expected identifier, found {v!r}")
+            raise Unsupported(f"expected identifier, found {v!r} (after {' '.join(x[1] for x in self.t[max(0, self.i - 6):self.i])})")
         self.i += 1
         return v
 
@@ -376,7 +376,15 @@ class Parser:
                 continue
             if self.at("for"):
                 self.i += 1
-                v = self.ident()
+                if self.opt("("):
+                    # `for (a, b) in ..`: a tuple pattern of plain names
+                    names = [self.ident()]
+                    while self.opt(","):
+                        names.append(self.ident())
+                    self.eat(")")
+                    v = tuple(names)
+                else:
+                    v = self.ident()
                 self.eat("in")
                 c = self.expr(no_struct=True)
                 b = self.block()
@@ -497,6 +505,9 @@ class Parser:
                 return ("num", int(v[2:].replace("_", ""), 16), None)
             m = re.match(r"(\d[\d_]*?)_?((?:[iu](?:8|16|32|64|128|size))?)$", v)
             return ("num", int(m.group(1).replace("_", "")), m.group(2) or None)
+        if k == "str":
+            self.i += 1
+            return ("str", v[1:-1])
         if k == "bstr":
             self.i += 1
             return ("bytes", [ord(c) for c in bytes(v[2:-1], "utf-8").decode("unicode_escape")])
@@ -506,6 +517,14 @@ class Parser:
                 self.i += 1
                 return ("paren_unit",)
             e = self.expr()
+            if self.at(","):
+                parts = [e]
+                while self.opt(","):
+                    if self.at(")"):
+                        break
+                    parts.append(self.expr())
+                self.eat(")")
+                return ("tuple", parts)
             self.eat(")")
             return ("paren", e)
         if v == "[":
@@ -641,6 +660,19 @@ class Parser:
             return ("some", n)
         if segs == ["None"]:
             return ("none",)
+        if len(segs) == 2 and self.at("(") and self.peek(1)[0] == "id" and self.peek(2)[1] == "{":
+            # `Enum::Variant(Struct { a, b, c })`: a payload variant destructured into its fields
+            self.i += 1
+            sname = self.ident()
+            self.eat("{")
+            flds = []
+            while not self.at("}"):
+                flds.append(self.ident())
+                if not self.opt(","):
+                    break
+            self.eat("}")
+            self.eat(")")
+            return ("vstruct", segs, sname, flds)
         return ("path", segs)
 
 
@@ -650,6 +682,11 @@ SMALL = {"u32", "u8", "i32", "usize", "u64"}
 NATTY = {"u32", "u8", "usize", "u64", "u128"}
 BITS = {"u8": 8, "u32": 32, "u64": 64, "usize": 64, "u128": 128}
 OPAQUE = {"Env", "CheckpointType", "Hasher!", "Context", "Key!"}   # parameters of these types are keys / handles: dropped
+
+
+def sym_code(name):
+    """a symbol: the number whose base-256 digits are the characters of its name (injective)"""
+    return int.from_bytes(name.encode(), "big")
 
 
 def as_nat(l, t):
@@ -699,8 +736,10 @@ class Gen:
             return "(" + " × ".join(self.lean_ty(t_) for t_ in ty[6:-1].split(",")) + ")"
         if ty == "Leaf":
             return "Nat"     # a leaf value: an opaque identifier (its hash and index are reads)
-        if ty in ("Symbol", "Signer"):
-            return "Nat"     # a role / function name: an opaque identifier
+        if ty in getattr(self, "penums", {}):
+            return ty
+        if ty in ("Symbol", "Signer", "Val"):
+            return "Nat"     # a role / function name / host value: an opaque identifier
         if ty in ("Address", "MuxedAddress"):
             return "Nat"     # an account / contract: an opaque identifier (a muxed address: its account)
         if ty == "Bytes32":
@@ -717,6 +756,8 @@ class Gen:
             return "Rounding"
         if ty.startswith("Option<"):
             return f"(Option {self.lean_ty(ty[7:-1])})"
+        if ty.startswith("Result<"):
+            return f"(Option {self.lean_ty(ty[7:-1].split(',')[0])})"   # Ok(v) = some v, Err(_) = none
         raise Unsupported(f"type {ty}")
 
     def strip(self, e):
@@ -1034,6 +1075,24 @@ class Gen:
         if e[0] == "call" and e[1] == ("var", "Some"):
             l, t = self.pure(e[2][0], env)
             return (f"(some {l})", f"Option<{t}>")
+        if e[0] == "tuple":
+            parts_ = [self.pure(x, env) for x in e[1]]
+            return ("(" + ", ".join(as_nat(l_, t_) if t_ == "int" else l_ for l_, t_ in parts_) + ")",
+                    "tuple<" + ",".join("u32" if t_ == "int" else t_ for _, t_ in parts_) + ">")
+        if e[0] == "macro" and e[1] == "symbol_short" and len(e[2]) == 1 and e[2][0].startswith('"'):
+            return (f"({sym_code(e[2][0][1:-1])} : Nat)", "Symbol")
+        if e[0] == "call" and e[1] == ("path", ["Symbol", "new"]) and len(e[2]) == 2 and self.is_handle(e[2][0], env) \
+                and self.strip(e[2][1])[0] == "str":
+            return (f"({sym_code(self.strip(e[2][1])[1])} : Nat)", "Symbol")
+        if e[0] == "mcall" and e[2] == "into_val" and len(e[3]) == 1 and self.is_handle(e[3][0], env):
+            return self.pure(e[1], env)     # conversion to a host value: the same data
+        if e[0] == "call" and e[1] == ("var", "Ok") and len(e[2]) == 1:
+            l, t = self.pure(e[2][0], env)       # `Result<T, E>`: `some` value or `none` (the error value is not kept)
+            return (f"(some {l})", f"Result<{t}>")
+        if e[0] == "call" and e[1] == ("var", "Err") and len(e[2]) == 1:
+            return ("none", "Result<?>")
+        if e[0] == "paren_unit":
+            return ("()", "()")
         if e[0] == "var" and e[1] == "None":
             return ("none", "Option<?>")
         if e[0] == "mcall":
@@ -1421,6 +1480,9 @@ class Gen:
                         return k(f"(some {a})", f"Option<{t}>")
                     some_code = self.tr(cl[2], dict(env, **{pv: (nb, rt_[7:-1])}), ksome, ret)
                     return f"(optCase {r}\n (fun {nb} =>\n {some_code})\n ({k('none', 'Option<' + seen.get('t', '?') + '>')}))"
+                if rt_.startswith("Option<") and name == "expect" and len(args) == 1 and self.strip(args[0])[0] == "str":
+                    v = self.fresh("v")
+                    return f"(Comp.unwrap {r} fun {v} =>\n {k(v, rt_[7:-1])})"
                 if rt_.startswith("Option<") and name == "unwrap_or_else":
                     a = self.strip(args[0])
                     if not (a[0] == "closure" and not a[1] and self.strip(a[2])[0] == "macro" and self.strip(a[2])[1] == "panic_with_error"):
@@ -1524,6 +1586,34 @@ class Gen:
                         env2[nm_] = (proj, ty_)
                     return go(i + 1, env2)
                 return self.tr(s[2], env, klt, ret)
+            if s[0] == "expr" and self.strip(s[1])[0] == "match" and any(p_[0] == "vstruct" for p_, _ in self.strip(s[1])[2]):
+                # `match x { Enum::Variant(Struct { a, b }) => A, _ => B }` as a statement: the named eliminator
+                # of the payload enum; what follows the statement continues in both arms
+                m_ = self.strip(s[1])
+                if len(m_[2]) != 2 or m_[2][0][0][0] != "vstruct" or m_[2][1][0][0] != "wild":
+                    raise Unsupported("payload match: expected one variant arm and a catch-all")
+                (_, segs_, sname_, flds_), body1 = m_[2][0]
+                body2 = m_[2][1][1]
+                en_, vn_ = segs_
+                pen_ = getattr(self, "penums", {}).get(en_)
+                if not pen_ or dict(pen_).get(vn_) != sname_:
+                    raise Unsupported(f"payload pattern {en_}::{vn_}({sname_})")
+                sflds_ = dict(getattr(self, "structs", {}).get(sname_, []))
+                if set(flds_) != set(sflds_):
+                    raise Unsupported(f"payload pattern of {sname_}: fields {flds_}")
+                blk = lambda b_: self.as_stmts(b_) if b_[0] == "block" else ("block", [("expr", b_)], None)
+                def arm(b_, env_):
+                    b_ = blk(b_)
+                    if b_[2] is not None:
+                        raise Unsupported("payload match arm with a value")
+                    return self.tr_stmts(b_[1], env_, lambda env3: go(i + 1, env3), ret)
+                def kmv(sv, st_):
+                    if st_ != en_:
+                        raise Unsupported(f"payload match on {st_}")
+                    pv = self.fresh("p")
+                    env1 = dict(env, **{f_: (f"{pv}.{f_}", sflds_[f_]) for f_ in flds_})
+                    return f"({en_}.case{vn_} {sv}\n (fun {pv} =>\n {arm(body1, env1)})\n ({arm(body2, env)}))"
+                return self.tr(m_[1], env, kmv, ret)
             if s[0] == "expr" and self.strip(s[1])[0] == "match":
                 m_ = self.strip(s[1])
                 pats = [p_ for p_, _ in m_[2]]
@@ -1621,6 +1711,15 @@ class Gen:
                         raise Unsupported("require_auth of " + t)
                     self.uses_reads = True
                     return f"(if (envr.authorized {l} = true) then\n {go(i + 1, env)}\n else\n Comp.panic)"
+                if e[0] == "mcall" and e[2] == "require_auth_for_args" and len(e[3]) == 1 and "authorized_for_args" in getattr(self, "reads", {}):
+                    l, t = self.pure(e[1], env)
+                    if t != "Address":
+                        raise Unsupported("require_auth_for_args of " + t)
+                    al, at = self.pure(e[3][0], env)
+                    if at != self.reads["authorized_for_args"][1][1]:
+                        raise Unsupported(f"require_auth_for_args with arguments of type {at}")
+                    self.uses_reads = True
+                    return f"(if (envr.authorized_for_args {l} {al} = true) then\n {go(i + 1, env)}\n else\n Comp.panic)"
                 if e[0] == "mcall" and e[2] == "publish" and self.strip(e[1])[0] == "struct":
                     return go(i + 1, env)   # event emission
                 if e[0] == "call" and e[1][0] == "var" and e[1][1].startswith("emit_") and (self.cur_ns, e[1][1]) not in self.sigs:
@@ -1773,6 +1872,8 @@ class Gen:
             t_ = self.strip(b[2])
             if t_[0] == "if" and t_[2][0] == "block" and (t_[2][2] is None or t_[3] is None):
                 return ("block", b[1] + [("expr", b[2])], None)
+            if t_[0] == "match" and any(p_[0] == "vstruct" for p_, _ in t_[2]):
+                return ("block", b[1] + [("expr", b[2])], None)
         return b
 
     def tr_while(self, s, env, k_after, ret):
@@ -1820,7 +1921,22 @@ class Gen:
         c_ = self.strip(coll)
         if c_[0] == "mcall" and c_[2] == "rev" and not c_[3] and self.strip(c_[1])[0] == "bin" and self.strip(c_[1])[1] == "..=":
             return self.tr_for_range_rev(var, self.strip(c_[1]), body, env, k_after, ret)
-        cl, ct = self.pure(coll, env)
+        zipped = None
+        if c_[0] == "mcall" and c_[2] == "zip" and len(c_[3]) == 1:
+            # `a.iter().zip(b)`: the list of pairs, as long as the shorter side
+            l_ = self.strip(c_[1])
+            if l_[0] == "mcall" and l_[2] == "iter" and not l_[3]:
+                l_ = self.strip(l_[1])
+            al, at = self.pure(l_, env)
+            bl, bt = self.pure(c_[3][0], env)
+            if not (at.startswith("Vec<") and bt.startswith("Vec<")):
+                raise Unsupported(f"zip of {at} and {bt}")
+            cl, ct = f"(List.zip {al} {bl})", f"Vec<tuple<{at[4:-1]},{bt[4:-1]}>>"
+            zipped = (at[4:-1], bt[4:-1])
+        else:
+            if c_[0] == "mcall" and c_[2] == "iter" and not c_[3]:
+                coll = c_[1]
+            cl, ct = self.pure(coll, env)
         if not ct.startswith("Vec<"):
             raise Unsupported(f"for over {ct}")
         elt = ct[4:-1]
@@ -1828,29 +1944,43 @@ class Gen:
         for m in muts:
             if m not in env:
                 raise Unsupported(f"loop assigns unknown variable {m}")
-        if not muts:
+        carry_st = "$st" in env and (self.cur_ns, self.cur_fn) in getattr(self, "writers", set())
+        if not muts and not carry_st:
             raise Unsupported("for loop without loop-carried variables")
-        others = [v for v in sorted(env) if v not in muts and not v.startswith("$")]
+        others = [v for v in sorted(env) if v not in muts and not v.startswith("$") and not env[v][1].startswith(("Key:", "Client:"))]
         self.loops += 1
         name = f"{self.cur_ns}.{self.cur_fn}.loop{self.loops}"
         params = muts + others
         penv = {v: (v + "_", env[v][1]) for v in params}
+        if carry_st:
+            penv["$st"] = ("st_", "Store")
         plist = " ".join(f"({penv[v][0]} : {self.lean_ty(env[v][1])})" for v in params)
-        rty = " × ".join(self.lean_ty(env[m][1]) for m in muts)
-        tup = lambda en: "(" + ", ".join(en[m][0] for m in muts) + ")"
+        if carry_st:
+            plist = f"(st_ : {self.cur_ns}.Store) " + plist
+        rparts = [self.lean_ty(env[m][1]) for m in muts] + ([f"{self.cur_ns}.Store"] if carry_st else [])
+        rty = " × ".join(rparts)
+        tup = lambda en: "(" + ", ".join([en[m][0] for m in muts] + ([en["$st"][0]] if carry_st else [])) + ")"
         rd = self.cur_ns in getattr(self, "reads_ns", set())
         ev = " envr" if rd else ""
-        again = lambda en: f"{name}{ev} rest_ {' '.join(en[v][0] for v in params)}"
-        benv = dict(penv, **{var: (var + "_", elt)})
+        again = lambda en: f"{name}{ev} rest_ {(en['$st'][0] + ' ') if carry_st else ''}{' '.join(en[v][0] for v in params)}"
+        if isinstance(var, tuple):
+            if zipped is None or len(var) != 2:
+                raise Unsupported("tuple pattern in a for loop over a non-zip")
+            benv = dict(penv, **{var[0]: ("x_.1", zipped[0]), var[1]: ("x_.2", zipped[1])})
+            hd = "x_"
+        else:
+            benv = dict(penv, **{var: (var + "_", elt)})
+            hd = var + "_"
         code = self.tr_stmts(body[1], benv, again, ret)
         self.aux.append(f"def {name} {'(envr : ' + self.cur_ns + '.Reads) ' if rd else ''}(xs_ : List {self.lean_ty(elt)}) {plist} : Comp ({rty}) :=\n"
-                        f" match xs_ with\n | [] => Comp.ok {tup(penv)}\n | {var}_ :: rest_ =>\n {code}\n")
+                        f" match xs_ with\n | [] => Comp.ok {tup(penv)}\n | {hd} :: rest_ =>\n {code}\n")
         st = self.fresh("st")
         env2 = dict(env)
-        for jx, m in enumerate(muts):
-            proj = st if len(muts) == 1 else st + "".join(".2" for _ in range(jx)) + (".1" if jx < len(muts) - 1 else "")
+        nres = len(rparts)
+        for jx, m in enumerate(muts + (["$st"] if carry_st else [])):
+            proj = st if nres == 1 else st + "".join(".2" for _ in range(jx)) + (".1" if jx < nres - 1 else "")
             env2[m] = (proj, env[m][1])
-        return f"(Comp.bind ({name}{ev} {cl} {' '.join(env[v][0] for v in params)}) fun {st} =>\n {k_after(env2)})"
+        return f"(Comp.bind ({name}{ev} {cl} {(env['$st'][0] + ' ') if carry_st else ''}{' '.join(env[v][0] for v in params)}) fun {st} =>\n {k_after(env2)})"
 
     def loop_params(self, env):
         others = [v for v in sorted(env) if not v.startswith("$")]
@@ -1972,9 +2102,9 @@ class Gen:
             self.cur_st = "st"
         self.ret_wrap = (lambda x: f"({x}, {self.cur_st})") if is_writer else None
         if is_writer:
-            code = self.tr_block(body, env, lambda a, t: f"Comp.ok ({a}, {self.cur_st})", ret)
+            code = self.tr_block(body, env, lambda a, t: f"Comp.ok ({as_nat(a, t) if ret in NATTY else a}, {self.cur_st})", ret)
         else:
-            code = self.tr_block(body, env, lambda a, t: f"Comp.ok {a}", ret)
+            code = self.tr_block(body, env, lambda a, t: f"Comp.ok {as_nat(a, t) if ret in NATTY else a}", ret)
         self.ret_wrap = None
         fuel = "(fuel : Nat) " if (ns, name) in self.fuel_fns else ""
         if ns in getattr(self, "reads_ns", set()):
@@ -2074,6 +2204,21 @@ READS_ISS = {"Issuer": {"network_id": "Bytes", "current_contract_address": "Addr
 FILES_ISS = [("Issuer", "packages/tokens/src/rwa/claim_issuer/storage.rs",
               ["get_current_nonce_for", "invalidate_claim_signatures", "build_claim_identifier", "build_claim_message",
                "set_claim_revoked", "is_claim_revoked", "is_claim_expired"])]
+STORE_CTL = {"Controller": {"MinDelay": ([], "u32"), "OperationLedger": (["Bytes32"], "u32"), "HasRole": (["Address", "Symbol"], "u32"),
+                            "Admin": ([], "Address"), "RoleAdmin": (["Symbol"], "Symbol"), "RoleAccountsCount": (["Symbol"], "u32")}}
+STRUCTS_CTL = {"Operation": [("target", "Address"), ("function", "Symbol"), ("args", "Val"), ("predecessor", "Bytes32"), ("salt", "Bytes32")],
+               "OperationMeta": [("predecessor", "Bytes32"), ("salt", "Bytes32"), ("executor", "Option<Address>")],
+               "ContractContext": [("contract", "Address"), ("fn_name", "Symbol"), ("args", "Val")]}
+PENUMS_CTL = {"Context": [("Contract", "ContractContext"), ("CreateContractHostFn", None), ("CreateContractWithCtorHostFn", None)]}
+READS_CTL = {"Controller": {"ledger_sequence": "u32", "hash_operation": ("purefn", ["Operation"], "Bytes32"), "current_contract_address": "Address",
+                            "authorized_for_args": ("purefn", ["Address", "tuple<Symbol,Address,Symbol,Val,Bytes32,Bytes32>"], "bool")}}
+FILES_CTL = [("Controller", "packages/governance/src/timelock/mod.rs", []),
+             ("Controller", "packages/governance/src/timelock/storage.rs",
+              ["get_operation_ledger", "get_operation_state", "is_operation_ready", "is_operation_done", "set_execute_operation"]),
+             ("Controller", "packages/access/src/access_control/storage.rs", ["has_role", "ensure_role", "get_role_member_count"]),
+             ("Controller", "examples/timelock-controller/src/contract.rs", ["__check_auth"])]
+TYMAPS_CTL = {"packages/governance/src/timelock/storage.rs": {"BytesN<32>": "Bytes32"},
+              "examples/timelock-controller/src/contract.rs": {"BytesN<32>": "Bytes32", "Hash<32>": "Key!", "Vec<Val>": "Val"}}
 STORE_RT = {"RoleTransfer": {"Pending": ([], "Address", "temp"), "Active": ([], "Address")}}
 READS_RT = {"RoleTransfer": {"ledger_sequence": "u32", "min_temp_ttl": "u32", "max_ttl": "u32", "authorized": "addr2bool"}}
 FILES_RT = [("RoleTransfer", "packages/access/src/role_transfer/storage.rs", ["transfer_role", "accept_transfer"])]
@@ -2147,7 +2292,8 @@ def deps(e, acc):
 
 
 def translate(repo, FILES=FILES, DEPS=(), imports=("OZ.Model.RustSem",), reads=None, structs=None, tymaps=None,
-              store=None, impl_types=None, stubs=None, rename_types=None, key_params=None, fn_prefix=None):
+              store=None, impl_types=None, stubs=None, rename_types=None, key_params=None, fn_prefix=None,
+              allow_traits=(), penums=None):
     """DEPS: files translated elsewhere whose signatures are needed (parsed, not emitted);
     reads: {namespace: {getter name: Rust type}} — the side-effect-free state getters (`Self::name(e)`)
     that become fields of the record `<namespace>.Reads` passed to every function of that namespace"""
@@ -2175,7 +2321,7 @@ def translate(repo, FILES=FILES, DEPS=(), imports=("OZ.Model.RustSem",), reads=N
             elif it[0] == "fn":
                 if only is not None and it[1] not in only:
                     continue
-                if it[5] and it[5][1] not in (None, "SorobanMulDiv"):
+                if it[5] and it[5][1] not in (None, "SorobanMulDiv") + tuple(allow_traits):
                     continue   # operator trait impls (Add, Sub, ...) are outside the property
                 pre = (fn_prefix or {}).get(rel, "")
                 if pre:
@@ -2243,8 +2389,15 @@ def translate(repo, FILES=FILES, DEPS=(), imports=("OZ.Model.RustSem",), reads=N
             g0 = Gen(sigs, consts)
             g0.enums = enums
             g0.structs = structs or {}
+            g0.penums = penums or {}
             for sn, flds in (structs or {}).items():
                 out.append(f"structure {sn} where\n" + "\n".join(f"  {fn_} : {g0.lean_ty(ft)}" for fn_, ft in flds) + "\n  deriving DecidableEq, Repr\n")
+            for en_, vs_ in (penums or {}).items():
+                out.append(f"inductive {en_} where\n" + "\n".join(f"  | {vn_}" + (f" (p : {g0.lean_ty(pt_)})" if pt_ else "") for vn_, pt_ in vs_) + "\n")
+                for vn_, pt_ in vs_:
+                    if pt_:
+                        out.append(f"/-- named eliminator: the payload of `{en_}::{vn_}`, or the other arm -/\n"
+                                   f"def {en_}.case{vn_} {{α : Type}} (c : {en_}) (f : {g0.lean_ty(pt_)} → α) (o : α) : α :=\n  match c with\n  | .{vn_} p => f p\n  | _ => o\n")
             out.append(f"/-- the state getters the translated functions read (`Self::name(e)`), as values -/\nstructure {ns}.Reads where")
             for rn, rt in reads[ns].items():
                 if rt == "fn2bool":
@@ -2314,6 +2467,7 @@ def translate(repo, FILES=FILES, DEPS=(), imports=("OZ.Model.RustSem",), reads=N
         g.writers = writers
         g.enums = enums
         g.structs = structs or {}
+        g.penums = penums or {}
         for f in order:
             out.append(g.function(ns, f, free))
             for sn, (sns, after, ptys_, rty_, text_) in (stubs or {}).items():
@@ -2630,6 +2784,12 @@ def main():
             txt = translate(repo, FILES_FT, imports=("OZ.Model.RustSemHost",), reads=READS_FT, structs=STRUCTS_FUNGIBLE, store=STORE_FT,
                             impl_types={"Base": "FungibleT"},
                             rename_types={"AllowanceData": "FungibleT.AllowanceData", "AllowanceKey": "FungibleT.AllowanceKey"})
+        elif "--controller" in sys.argv:
+            txt = translate(repo, FILES_CTL, reads=READS_CTL, structs=STRUCTS_CTL, penums=PENUMS_CTL, store=STORE_CTL, tymaps=TYMAPS_CTL,
+                            allow_traits=("CustomAccountInterface",),
+                            rename_types={"OperationState": "Controller.OperationState", "Operation": "Controller.Operation",
+                                          "OperationMeta": "Controller.OperationMeta", "ContractContext": "Controller.ContractContext",
+                                          "Context": "Controller.Context"})
         elif "--issuer" in sys.argv:
             txt = translate(repo, FILES_ISS, reads=READS_ISS, store=STORE_ISS)
         elif "--topics" in sys.argv:
